@@ -45,7 +45,9 @@ def _case(draw):
     return {'client': client, 'retries': draw(st.integers(0, 3)), 'retry_on_empty': draw(st.booleans()),
             'retry_on_invalid': draw(st.booleans()), 'backoff': draw(st.sampled_from([0.3, 0.3, 0.1, 1.0])),
             'unit': draw(st.integers(1, 247)), 'kind': k, 'fields': f, 'script': script, 'follow': [k2, f2],
-            'serial': draw(transports.serial_options()) if client in ('rtu', 'ascii', 'binary') else {}}
+            'serial': draw(transports.serial_options()) if client in ('rtu', 'ascii', 'binary') else {},
+            # the judged request is a broadcast write (client built with broadcast_enable=True, unit 0): nobody answers
+            'bcast': draw(st.sampled_from([False] * 6 + [True]))}
 
 
 def strategy(tier):
@@ -148,6 +150,8 @@ def _mk_client(kind, case, w=None):
     from pymodbus.client.sync import ModbusTcpClient, ModbusSerialClient, ModbusUdpClient
     kw = dict(retries=case['retries'], retry_on_empty=case['retry_on_empty'], retry_on_invalid=case['retry_on_invalid'],
               backoff=case['backoff'], timeout=1)
+    if case.get('bcast'):
+        kw['broadcast_enable'] = True
     if kind == 'tcp':
         return ModbusTcpClient('peer', 502, **kw)
     if kind == 'udp':
@@ -168,6 +172,11 @@ def run_case(case):
     labels = ['client:' + ckind, 'retries:%d' % case['retries'], 'roe:%s' % case['retry_on_empty'], 'roi:%s' % case['retry_on_invalid']]
     labels += ['b:' + b[0] for b in case['script']]
     discs = []
+    if case.get('bcast'):
+        if case['kind'] not in ('req:5', 'req:6', 'req:15', 'req:16', 'req:22'):
+            case = dict(case, kind='req:6', fields={'address': 9, 'value': 0x1234})
+        case = dict(case, script=[['nothing']])
+        labels.append('broadcast')
     rpdu = specpdu.encode(case['kind'], case['fields'])
     fpdu = specpdu.encode(*case['follow'])
     if framing == 'binary':
@@ -181,7 +190,7 @@ def run_case(case):
         if case.get('serial'):
             labels.append('serial-opts:' + ','.join('%s=%s' % kv for kv in sorted(case['serial'].items())))
         t0 = w.clock.t
-        req = kinds.build(case['kind'], case['fields'], unit=case['unit'])
+        req = kinds.build(case['kind'], case['fields'], unit=0 if case.get('bcast') else case['unit'])
         result = None
         try:
             result = client.execute(req)
@@ -205,10 +214,14 @@ def run_case(case):
             bound = (2 + case['retries']) * (3 * 1.0 + 1.0) + case['backoff'] * (2 ** (case['retries'] + 2))
             if dur > bound:
                 discs.append(Disc('too-slow', '%s script %r: virtual duration %.2fs exceeds the bound %.2fs' % (ckind, case['script'], dur, bound)))
-            if not isinstance(result, (ModbusIOException, ModbusResponse)):
+            if case.get('bcast'):
+                if nsent != 1 or dur >= 1.0 or isinstance(result, Exception) or result is None:
+                    discs.append(Disc('broadcast', '%s: a broadcast write took %d transmissions and %.2fs and returned %r (one transmission, no waiting for a reply, a result)' % (
+                        ckind, nsent, dur, result)))
+            elif not isinstance(result, (ModbusIOException, ModbusResponse)):
                 discs.append(Disc('result-type', '%s script %r: returned %r (neither a response nor an error object)' % (ckind, case['script'], result)))
         # retry semantics
-        if not discs:
+        if not discs and not case.get('bcast'):
             beh = [b[0] for b in case['script']]
             for flag, fault in (('retry_on_empty', 'nothing'), ('retry_on_invalid', 'wrong_unit')):
                 j = 0
